@@ -165,8 +165,8 @@ pub struct BadEvolution {
     pub a: u8,
 }
 
-/// a field name removed and later re-added (outside the legal histories: such a type cannot read its own data, whose
-/// header names `x` as removed). Data from the version in between must be rejected, not completed with the default.
+/// a field name removed and later re-added: the removal concerns the earlier field of that name (before repair 6th of the
+/// bug hunt such a type could not read its own data). Data from the version in between reads with the default.
 #[derive(BinaryCodec)]
 #[evolution(FieldRemoved("x"), FieldAdded("x", 7777u32))]
 pub struct ReusedName {
@@ -569,8 +569,8 @@ pub fn register(reg: &mut Registry) {
             steps: vec![Step::Removed("x".into()), Step::Added("x".into())],
         })),
     );
-    reg.add_hostile_only::<ReusedName>("ReusedName");
-    reg.add_hostile_only::<ReusedNameOpt>("ReusedNameOpt");
+    reg.add_tagged::<ReusedName>("ReusedName", &["special:name_reused"]);
+    reg.add_tagged::<ReusedNameOpt>("ReusedNameOpt", &["special:name_reused"]);
     // the nesting chain
     refmodel::register("Nest0", Ty::Record(Arc::new(RecordSchema { name: "Nest0".into(), fields: vec![f::<u8>("head", false), f::<Vec<Nest1>>("kids", false), sbase::fs::<u32>("tail", false, false, Some(Val::U(0)))], steps: vec![Step::Added("tail".into())] })));
     refmodel::register("Nest1", Ty::Record(Arc::new(RecordSchema { name: "Nest1".into(), fields: vec![f::<u8>("head", false), f::<Vec<Nest2>>("kids", false), sbase::fs::<u32>("tail", false, false, Some(Val::U(0)))], steps: vec![Step::Added("tail".into())] })));
